@@ -54,6 +54,7 @@ type Contract struct {
 	Props     []string
 	Requires  []*Clause
 	Ensures   []*Clause
+	Assumes   []*Clause
 	Modifies  []*SExpr
 	HasMod    bool
 	Decreases *Clause
@@ -122,7 +123,7 @@ func NewContractSet() *ContractSet {
 
 var reFuncHdr = regexp.MustCompile(`^func\s+(?:\(([^)]*)\)\s*)?([A-Za-z_$][\w$.]*)`)
 var rePropLabel = regexp.MustCompile(`^\s*((?:C\d+,?)+/)?([A-Za-z_][\w\-.]*)\s*:\s+`)
-var keywords = []string{"typeinv", "purepkg", "noreturn", "func", "iface", "props", "requires", "ensures", "modifies", "decreases", "may_panic", "no_panic", "pure", "trusted", "opaque", "inline", "loop", "ghost", "spec", "define", "axiom", "package"}
+var keywords = []string{"assumes", "typeinv", "purepkg", "noreturn", "func", "iface", "props", "requires", "ensures", "modifies", "decreases", "may_panic", "no_panic", "pure", "trusted", "opaque", "inline", "loop", "ghost", "spec", "define", "axiom", "package"}
 
 func startsWithKeyword(s string) string {
 	for _, k := range keywords {
@@ -212,10 +213,23 @@ func (cs *ContractSet) LoadFile(path, pkg string, trusted bool) {
 			if part == "" || part == "nothing" {
 				continue
 			}
+			var cond *SExpr
+			if i := strings.Index(part, " when "); i >= 0 {
+				c, err := ParseSpec(part[i+6:])
+				if err != nil {
+					errf(line, "parse when-condition %q: %v", part[i+6:], err)
+					continue
+				}
+				cond = c
+				part = strings.TrimSpace(part[:i])
+			}
 			e, err := ParseSpec(part)
 			if err != nil {
 				errf(line, "parse loc %q: %v", part, err)
 				continue
+			}
+			if cond != nil {
+				e = &SExpr{Kind: KBinary, Op: "when", Args: []*SExpr{e, cond}}
 			}
 			out = append(out, e)
 		}
@@ -341,6 +355,11 @@ func (cs *ContractSet) LoadFile(path, pkg string, trusted bool) {
 			case "ensures":
 				if c := parseClause(rest, l.line); c != nil {
 					cur.Ensures = append(cur.Ensures, c)
+				}
+			case "assumes":
+				// a postcondition handed to callers WITHOUT being checked against the body (listed as an assumption)
+				if c := parseClause(rest, l.line); c != nil {
+					cur.Assumes = append(cur.Assumes, c)
 				}
 			case "modifies":
 				cur.HasMod = true
